@@ -36,7 +36,7 @@ def cleanupStaleConnections : List String := ["clientRegistry.CleanupStale", "cl
 def clientIndexPointsTo_storage : List String := ["storage.Get"]
 def handleDNSQueryCrossNode : List String := ["connStateStore.FindClientNode", "crossNodePool.Get", "WriteFrame", "ReadFrame"]
 def handleDisconnectCommand : List String := ["clientRegistry.GetByConnID", "CloseConnection"]
-def handleHandshake : List String := ["RegisterControlConnection", "RegisterControlConnection", "authHandler.HandleHandshake", "sendHandshakeResponse", "clientRegistry.DropStaleIndex", "sendHandshakeResponse", "clientRegistry.GetByClientID", "clientRegistry.Remove", "clientRegistry.UpdateAuth", "connStateStore.RegisterConnection", "connStateStore.UnregisterConnection"]
+def handleHandshake : List String := ["RegisterControlConnection", "RegisterControlConnection", "authHandler.HandleHandshake", "sendHandshakeResponse", "clientRegistry.DropStaleIndex", "sendHandshakeResponse", "clientRegistry.GetByClientID", "connStateStore.UnregisterConnection", "clientRegistry.Remove", "clientRegistry.UpdateAuth", "connStateStore.RegisterConnection"]
 def handleHeartbeat : List String := ["clientRegistry.GetByConnID", "controlConn.UpdateActivity", "connStateStore.RefreshConnection"]
 def removeConnectionLocked : List String := ["Stream.Close", "unindexLocked", "delete"]
 def sendCommandCrossNode : List String := ["connStateStore.FindClientNode", "crossNodePool.Get", "WriteFrame", "ReadFrame"]
@@ -77,7 +77,7 @@ def UnregisterConnection : List String := [
   "if err == nil && state != nil",
   "if state.ConnType == \"control\" && state.ClientID > 0",
   "clientKey := s.makeClientKey(state.ClientID)",
-  "if nodeID, _, findErr := s.FindClientNode(ctx, state.ClientID); findErr == nil && nodeID == s.nodeID",
+  "if s.clientIndexPointsTo(clientKey, connectionID)",
   "if delErr := s.storage.Delete(clientKey); delErr != nil",
   "end",
   "end",
